@@ -657,7 +657,7 @@ def floors(tier, counters, evaluations):
             "solutions:deciding_read_has_symbolic_address", 0))
     for where in ("last", "first", "absent"):
         got = sum(v for k, v in counters.items() if k.startswith("programs_with_table_") and k.endswith(where))
-        if got < (3 if tier == "quick" else 40):
+        if got < (3 if tier == "quick" else 30):
             miss.append("only %d programs branch on a table value placed '%s'" % (got, where))
     if counters.get("rejected", 0) > 0.5 * max(1, progs):
         miss.append("more than half of the programs were rejected as unsupported")
